@@ -475,6 +475,7 @@ class Glob(Generic[AnyStr]):
 
         self.root_dir = temp  # type: AnyStr
         self.current_limit = self.limit
+        self.total = 0
         self._parse_patterns(pats)
         if epats is not None:
             self._parse_patterns(epats, force_negate=True)
@@ -484,14 +485,13 @@ class Glob(Generic[AnyStr]):
 
         seen = set()
         try:
-            total = 0
             for p in patterns:
                 p = util.norm_pattern(p, not self.unix, self.raw_chars)
                 count = 0
                 for expanded in _wcparse.expand(p, self.flags, self.current_limit):
                     count += 1
-                    total += 1
-                    if 0 < self.limit < total:
+                    self.total += 1
+                    if 0 < self.limit < self.total:
                         raise _wcparse.PatternLimitException(
                             f"Pattern limit exceeded the limit of {self.limit:d}"
                         )
